@@ -415,6 +415,74 @@ SCRIPTS.update({"scale-msgs": scale_msgs, "scale-subs": scale_subs, "scale-apps"
                 "scale-time": scale_time, "scale-name": scale_name})
 
 
+def late_sweep(s):
+    """C05 C12 (C06): two sides connected to a mailbox while the periodic sweep is late, skipped or failing for
+    longer than the expiration time (so the mailbox's stamp is old although it has subscribers), other apps
+    -- sorting before and after -- having expired and fresh channels of their own in the same sweep; afterwards
+    the first two sides are still the only ones served and a third side is still refused"""
+    r = s.rng
+    apps = ["a1", "a2", "a3"]
+    victim = r.choice(apps)
+    name = r.choice(["1", "7"])
+    use_np = r.random() < 0.5
+    v1 = Client(s, victim, "s1")
+    v2 = Client(s, victim, "s2")
+    mbox = "mv"
+    if use_np:
+        o = v1.cmd({"type": "claim", "nameplate": name})
+        for e in o["log"]:
+            if e[0] == "F" and e[3] == "claimed" and isinstance(e[4], str):
+                mbox = bytes.fromhex(e[4]).decode("utf-8")
+        v2.cmd({"type": "claim", "nameplate": name})
+    v1.cmd({"type": "open", "mailbox": mbox})
+    v2.cmd({"type": "open", "mailbox": mbox})
+    v1.cmd({"type": "add", "phase": "pake", "body": "00"})
+    v2.cmd({"type": "add", "phase": "pake", "body": "01"})
+    for a in apps:
+        if a != victim or r.random() < 0.5:
+            c = Client(s, a, r.choice(["s1", "s3"]))
+            if r.random() < 0.6:
+                c.cmd({"type": "claim", "nameplate": r.choice(["1", "2"])})
+            c.cmd({"type": "open", "mailbox": r.choice(["m1", "mv", "m2"]) if a != victim else "m1"})
+            c.cmd({"type": "add", "phase": "p", "body": "aa"})
+            if r.random() < 0.7:
+                c.drop()
+    E, P = s.w.EXP, s.w.PERIOD
+    x = r.random()
+    if x < 0.4:
+        _adv(s, E + r.choice([1, P, 3 * P]))                 # one late tick
+    elif x < 0.8:
+        for k in range(E // P + 1):
+            _adv(s, P, fault=True)                            # failing sweeps
+        _adv(s, P)
+    else:
+        _adv(s, P)
+        _adv(s, E + P + 1)
+    # the first two are still served ...
+    v1.cmd({"type": "add", "phase": "p", "body": "02"})
+    if r.random() < 0.5:
+        v1b = Client(s, victim, "s1")
+        v1b.cmd({"type": "open", "mailbox": mbox})
+        if use_np and r.random() < 0.5:
+            v1b.cmd({"type": "claim", "nameplate": name})
+    # ... and a third and a fourth side are not
+    for side in ("s3", "s4"):
+        c = Client(s, victim, side)
+        if use_np and r.random() < 0.5:
+            c.cmd({"type": "claim", "nameplate": name})
+        c.cmd({"type": "open", "mailbox": mbox})
+        c.cmd({"type": "add", "phase": "p", "body": "03"})
+        if r.random() < 0.5:
+            c.drop()
+    v2.cmd({"type": "add", "phase": "p", "body": "04"})
+    _adv(s, P)
+    v2.cmd({"type": "close", "mood": "happy"})
+    v1.cmd({"type": "close", "mood": "happy"})
+
+
+SCRIPTS["late-sweep"] = late_sweep
+
+
 def run(name, session):
     SCRIPTS[name](session)
 
